@@ -450,3 +450,36 @@ theorem foldl_add_sub_eq_sum (u v : Nat → K) (n : Nat) :
 
 end ndN
 end OdlModel.FiniteDiff
+
+/-! ### the space inner product (round 4) -/
+
+namespace OdlModel.FiniteDiff
+open Finset
+section innerL
+variable {K : Type} [Field K]
+
+theorem sumAxesL_eq (shape : Nat → Nat) (l : List Nat) (F : IdxN → K) (x : IdxN) :
+    sumAxesL shape l F x = sumAxes shape l F x := by
+  induction l generalizing x with
+  | nil => rfl
+  | cons a l ih =>
+    simp only [sumAxesL, sumAxes, ih]
+    exact foldl_add_eq_sum (fun k => sumAxes shape l F (x.set a k)) (shape a)
+
+theorem sumAxes_mul_left (shape : Nat → Nat) (l : List Nat) (W : K) (F : IdxN → K) (x : IdxN) :
+    sumAxes shape l (fun y => W * F y) x = W * sumAxes shape l F x := by
+  induction l generalizing x with
+  | nil => rfl
+  | cons a l ih => simp only [sumAxes, ih, mul_sum]
+
+/-- with per-axis constant cell sizes the weight does not depend on the point -/
+theorem innerN_uniform (ω : Nat → K) (shape : Nat → Nat) (d : Nat) (σ : K → K)
+    (X Y : IdxN → K) :
+    innerN (axisWeight false shape ω) shape d σ X Y
+      = cellWeight (fun a _ => ω a) d (fun _ => 0) * boxSumN shape d (fun x => X x * σ (Y x)) := by
+  unfold innerN boxSumN
+  rw [sumAxesL_eq, ← sumAxes_mul_left]
+  rfl
+
+end innerL
+end OdlModel.FiniteDiff
